@@ -841,7 +841,10 @@ seeded("z1-advance-before-yield", ["C18"], "Z1", [(P, '''            yield (m.la
             self.pos += len(m.group(0))''', '''            self.pos += len(m.group(0))
             yield (m.lastgroup, m.group(m.lastgroup))''')], "verdicts unchanged; positions of errors shift; breaks the 4 exact-message tests? (line only)")
 seeded("z2-line-counts-cr", ["C18"], "Z2", [(P, '''return self.text[: self.pos].count(b"\\n") + 1''', '''return len(self.text[: self.pos].splitlines()) + 1''')], "differs for CRLF / empty last line")
-seeded("z2-line-off-by-one", ["C18"], "Z2", [(P, '''return self.text[: self.pos].count(b"\\n") + 1''', '''return self.text[: self.pos + 1].count(b"\\n") + 1''')], "only differs when the offending token is a newline-adjacent one")
+# (was a seeded variant while Z2 compared formulas: the byte AT the position is never a line feed when a position is asked for -
+# blanks are skipped before a token is matched and the position stays on the token's first byte while it is handled - so counting it
+# changes nothing on any reachable state; the evaluation of the lexer agrees, and the variant became a benign one)
+benign("z2-line-counts-byte-at-pos", ["C18", "C02"], [(P, '''return self.text[: self.pos].count(b"\\n") + 1''', '''return self.text[: self.pos + 1].count(b"\\n") + 1''')])
 seeded("z2-column-zero-based", ["C18"], "Z2", [(P, '''return self.pos - self.text.rfind(b"\\n", 0, self.pos)''', '''return self.pos - self.text.rfind(b"\\n", 0, self.pos) - 1''')], "no test asserts a column")
 seeded("z2-column-from-start", ["C18"], "Z2", [(P, '''return self.pos - self.text.rfind(b"\\n", 0, self.pos)''', '''return self.pos - self.text.find(b"\\n", 0, self.pos)''')])
 seeded("z3-length-of-text", ["C18"], "Z3", [(P, '''                self.lexer.curcolno(),
@@ -1145,7 +1148,7 @@ seeded("s2-tag-lowercased", ["C04"], "S2", [(C, '''                if "tag" in a
                     target.write(value.lower())''')], "fixed point broken for upper-case tags only")
 seeded("s3-block-open-without-space-newline", ["C04"], "S3", [(C, '''        target.write(" {\\n")''', '''        target.write(" [\\n")''')])
 seeded("s3-terminator-colon", ["C04"], "S3", [(C, '''                target.write(";\\n")''', '''                target.write(":\\n")''')])
-seeded("s4-no-newline-after-text-block", ["C04"], "S4", [(C, '''                    if not value.startswith('"') and not value.startswith("["):
+seeded("s4-no-newline-after-text-block", ["C04"], "S6", [(C, '''                    if not value.startswith('"') and not value.startswith("["):
                         target.write("\\n")''', '''                    if not value.startswith('"') and not value.startswith("[") and indentlevel == 0:
                         target.write("\\n")''')], "text: blocks inside a nested block are glued to the `;`")
 seeded("s5-last-child-skipped", ["C04"], "S5", [(C, '''        for ch in self.children:
@@ -1153,7 +1156,7 @@ seeded("s5-last-child-skipped", ["C04"], "S5", [(C, '''        for ch in self.ch
         self.__print("}", indentlevel, target=target)''', '''        for ch in self.children[:1]:
             ch.tosieve(indentlevel + 4, target=target)
         self.__print("}", indentlevel, target=target)''')])
-seeded("s5-separator-after-last", ["C04"], "S5", [(C, '''                            if value.index(t) != len(value) - 1:
+seeded("s5-separator-after-last", ["C04"], "S6", [(C, '''                            if value.index(t) != len(value) - 1:
                                 target.write(", ")''', '''                            target.write(", ")''')])
 benign("c04-isinstance-list", ["C04"], [(C, '''                if type(value) == list:
                     if self.__get_arg_type(arg["name"]) == ["testlist"]:
